@@ -96,7 +96,20 @@ def qsum_case(draw):
     w = draw(G.expr_of_dim(dim))
     a = draw(operand(array=False))
     b = draw(operand(array=False))
+    if draw(st.integers(0, 4)) == 0:
+        # an operand that is exactly zero still carries its (absolute) uncertainty
+        b = {"x": 0.0, "e": draw(st.sampled_from([1.0, 0.5, 2e-3]))}
     return {"kind": "qsum", "op": draw(st.sampled_from(["+", "-"])), "u": u, "v": w, "a": a, "b": b}
+
+
+@st.composite
+def custom_conv_case(draw):
+    """the same custom symbol registered in two successive scopes with different factors: every conversion must use
+    the factor of its own scope, for the value and for the uncertainty"""
+    m1, m2 = draw(st.lists(st.sampled_from([0.75, 1.5, 2.0, 0.3, 10.0]), min_size=2, max_size=2, unique=True))
+    a = draw(operand(allow_exact=False, array=False, positive=True))
+    return {"kind": "custom_conv", "m": [m1, m2], "a": a, "target": draw(st.sampled_from(["m", "cm", "km"])),
+            "how": draw(st.sampled_from(["to", "sum"]))}
 
 
 @st.composite
@@ -118,6 +131,7 @@ def strategies(tier):
         "conversion": (conv_case(), 1200, 30000),
         "quantity_sum": (qsum_case(), 800, 20000),
         "quantity_prod": (qprod_case(), 1000, 20000),
+        "custom_units": (custom_conv_case(), 300, 5000),
     }
 
 
@@ -322,6 +336,29 @@ def check_qsum(case, v):
     v.label("qsum")
 
 
+def check_custom_conv(case, v):
+    from scinumtools.units import Quantity, UnitEnvironment
+    a = case["a"]
+    ft = R.factor_of_expression_text(case["target"])
+    for i, m in enumerate(case["m"]):
+        with UnitEnvironment({"pace": {"magnitude": m, "dimensions": [1, 0, 0, 0, 0, 0, 0, 0]}}):
+            q = Quantity(_mk(a), "pace")
+            if case["how"] == "to":
+                q.to(case["target"])
+                exp_v, exp_e = _np(a["x"]) * m / ft, _err(a) * m / ft
+                what = f"scope {i + 1} (1 pace = {m} m): Quantity({a['x']!r}+-{a['e']!r},'pace').to({case['target']!r})"
+            else:
+                q = Quantity(1.0, case["target"], abse=0.0) + q
+                exp_v, exp_e = 1.0 + _np(a["x"]) * m / ft, _err(a) * m / ft
+                what = f"scope {i + 1} (1 pace = {m} m): Quantity(1,{case['target']!r},abse=0) + Quantity({a['x']!r}+-{a['e']!r},'pace')"
+            if not _eq(q.value(), exp_v, 1e-10):
+                return v.fail("custom-value", f"{what} = {q.value()!r}, expected {exp_v!r}")
+            if q.abse() is None or not _eq(q.abse(), exp_e, 1e-10):
+                return v.fail("conversion-error", f"{what}: abse {q.abse()!r}, expected {exp_e!r}")
+    v.nt(True)
+    v.label("custom_units")
+
+
 def check_qprod(case, v):
     from scinumtools.units import Quantity
     tu, tv = R.render(case["u"]), R.render(case["v"])
@@ -360,7 +397,7 @@ def check(case):
     try:
         with np.errstate(all="ignore"):
             {"mag": check_mag, "exact": check_exact, "pow": check_pow, "rele": check_rele,
-             "conv": check_conv, "qsum": check_qsum, "qprod": check_qprod}[case["kind"]](case, v)
+             "conv": check_conv, "qsum": check_qsum, "qprod": check_qprod, "custom_conv": check_custom_conv}[case["kind"]](case, v)
     finally:
         if not R.tables_pristine():
             R.restore_tables()
